@@ -1,7 +1,7 @@
 //! Property table: generator profile, schedule budget and oracle per property.
 
 use crate::case::*;
-use crate::engine::Outcome;
+use crate::outcome::Outcome;
 use crate::explore::{single_variant, Group, PropSpec};
 use crate::gen::{self, BenchOpts};
 use crate::hist::Hist;
@@ -211,7 +211,31 @@ fn nt_c06(_c: &Case, _out: &Outcome, h: &Hist) -> bool {
 }
 
 // ---------------------------------------------------------------- C16
+/// A bench with more models than one injector bucket holds (128): every model task sits in the
+/// injector queue when `SimInit::init` starts the executor.
+fn gen_big_bench(rng: &mut Rng) -> Case {
+    let o = BenchOpts { min_nodes: 1, max_nodes: 1, queries: false, sources: false, init_ops: false, max_kinds: 1, max_ops: 0, ..Default::default() };
+    let mut c = gen::gen_bench(rng, &o);
+    let n = rng.range(129, 180) as usize;
+    let hier = rng.pct(40);
+    c.nodes.clear();
+    for i in 0..n {
+        let parent = if hier && i % 10 != 0 { Some((i - i % 10) as u16) } else { None };
+        // a few init-time pings to the next model (kept and processed after its own init)
+        let outs = if i + 1 < n && rng.pct(25) { vec![vec![Edge { cid: 50_000 + i as u32, target: Target::Node((i + 1) as u16), map: rng.pct(50), filter: None }]] } else { vec![] };
+        let init = if !outs.is_empty() && rng.pct(60) { vec![Op::Send { port: 0, kind: 0 }] } else { vec![] };
+        c.nodes.push(NodeSpec { name: format!("m{}", i), parent, cap: 16, registered: true, dead: false, outs, reqs: vec![], init, on: vec![vec![]], panic_at: None });
+    }
+    c.cfg.threads = rng.range(2, 4) as u8;
+    c.script = vec![Cmd::ProcessEvent { target: rng.usize(n) as u16, kind: 0 }, Cmd::ProcessEvent { target: (n - 1) as u16, kind: 0 }];
+    c.profile = "init-big".into();
+    c
+}
+
 fn gen_c16(rng: &mut Rng, thorough: bool) -> Case {
+    if rng.pct(if thorough { 2 } else { 1 }) {
+        return gen_big_bench(rng);
+    }
     let o = BenchOpts {
         min_nodes: 2,
         max_nodes: if thorough { 8 } else { 6 },
